@@ -4,8 +4,18 @@ EXTENDS IndLib
 
 TrendStrengthIndex_Init(cfg, c) == [w |-> WFill(cfg.period, Src(c, cfg.source))]
 TrendStrengthIndex_Step(cfg, st, c, P, V) ==
-    LET w == WPush(st.w, Src(c, cfg.source))
-    IN  [st |-> [w |-> w], vals |-> <<AnyVal>>]
+    LET n   == cfg.period
+        w   == WPush(st.w, Src(c, cfg.source))
+        S   == SrcScale(cfg.source, P, V)
+        sy  == FxSum(w)
+        A   == FxSub(FxMulInt(FxSum([i \in 1..n |-> FxMulInt(w[i], i)]), n), FxMulInt(sy, (n * (n + 1)) \div 2))   \* n Sxy
+        B   == FxSub(FxMulInt(FxSum([i \in 1..n |-> FxSqr(w[i])]), n), FxSqr(sy))                                  \* n Syy
+        nk  == (n * n * (n * n - 1)) \div 12                                                                      \* n Sxx
+        \* condition number of Syy = sum y^2 - (sum y)^2 / n, computed by the code from running sums of size n S^2
+        cond == FxDiv(FxMulInt(FxSqr(S), n * n), B)
+    IN  [st |-> [w |-> w],
+         vals |-> <<IF B.s <= 0 \/ FxGt(cond, FxFromInt(1000000)) THEN AnyVal
+                    ELSE Ex(FxDiv(A, FxSqrt(FxMulInt(B, nk))), FxAdd(FxMulInt(FxSqrt(cond), 9), FxMulInt(cond, 4)))>>]
 
 ----------------------------------------------------------------------------
 \* a NaN among logged floats: ordered with nothing
@@ -30,9 +40,12 @@ TrendStrengthIndex_RevNext(st, x, dir) ==
         \* only differences of positions matter (the code renumbers them before its counter saturates): keep them small
         shift == IF idxs > 2 * n THEN idxs - 2 * n ELSE 0
     IN  [st |-> [st EXCEPT !.win = win2, !.ei = upd[1] - shift, !.ev = upd[2], !.index = idxs - shift], out |-> B2I(fire)]
-RECURSIVE TrendStrengthIndex_NaNs(_, _, _)
-TrendStrengthIndex_NaNs(rv, dir, j) ==
-    IF j = 0 THEN rv ELSE TrendStrengthIndex_NaNs(TrendStrengthIndex_RevNext(rv, TrendStrengthIndex_NaN, dir).st, dir, j - 1)
+RECURSIVE TrendStrengthIndex_NaNs(_, _, _, _)
+TrendStrengthIndex_NaNs(rv, dir, j, bad) ==
+    IF j = 0 THEN rv ELSE TrendStrengthIndex_NaNs(TrendStrengthIndex_RevNext(rv, bad, dir).st, dir, j - 1, bad)
+\* p / 0 with a rounding residue in p gives +-inf instead of NaN: infinite logged values compare above / below everything
+TrendStrengthIndex_PInf == [x |-> FxZero, o |-> <<1, 2147483647, 65535, 65535>>]
+TrendStrengthIndex_NInf == [x |-> FxZero, o |-> <<-1, 2147483647, 65535, 65535>>]
 
 \* admissible signs of (a - z) for a logged float a and a configured threshold z (z = +-zone, negation is exact)
 TrendStrengthIndex_Sgn(a, z) ==
@@ -41,19 +54,26 @@ TrendStrengthIndex_Sgn(a, z) ==
     ELSE {-1, 0, 1}
 TrendStrengthIndex_Sub(u, a) == IF u = 1 /\ a = 1 THEN 0 ELSE Act(u - a)
 
+\* which rule TrendStrengthIndex_Sig stands for: TRUE = the documented one, FALSE = the behaviour of the code
+CONSTANT TSTRENGTH_DOC      \* TRUE: the documented signal rules; FALSE: the rules as coded (polarity inverted, S1 gated by the PRICE window)
+TrendStrengthIndex_Doc == TSTRENGTH_DOC
 TrendStrengthIndex_SigInit(cfg, c) ==
     [lu |-> -cfg.zone.s, la |-> cfg.zone.s, hi |-> RevVInit(1, 2, ZeroV), lo |-> RevVInit(1, 2, ZeroV),
-     pw |-> WFill(cfg.period + 1, Src(c, cfg.source)), vw |-> WFill(cfg.period + 1, ZeroV)]
+     pw |-> WFill(cfg.period + 1, Src(c, cfg.source)),
+     vw |-> IF TrendStrengthIndex_Doc THEN WFill(cfg.reverse_offset + 1, ZeroV) ELSE <<>>]
 
 \* the states the signal machine may be in when the steps since the last numeric value produced NaN
 TrendStrengthIndex_Pre(cfg, sg) ==
     LET n == cfg.period
+        m == cfg.reverse_offset + 1
         flat == \A i \in 1..(n - 2) : FxEq(Ago(sg.pw, i), Ago(sg.pw, 0))
-    IN  {sg} \cup (IF flat THEN {[lu |-> 0, la |-> 0,
-                                  hi |-> TrendStrengthIndex_NaNs(sg.hi, 1, j), lo |-> TrendStrengthIndex_NaNs(sg.lo, -1, j),
+    IN  {sg} \cup (IF flat THEN {[lu |-> b[2], la |-> b[2],
+                                  hi |-> TrendStrengthIndex_NaNs(sg.hi, 1, j, b[1]), lo |-> TrendStrengthIndex_NaNs(sg.lo, -1, j, b[1]),
                                   pw |-> WFill(n + 1, Ago(sg.pw, 0)),
-                                  vw |-> IF j > n THEN WFill(n + 1, TrendStrengthIndex_NaN)
-                                         ELSE SubSeq(sg.vw, j + 1, n + 1) \o WFill(j, TrendStrengthIndex_NaN)] : j \in 1..8}
+                                  vw |-> IF ~TrendStrengthIndex_Doc THEN <<>>
+                                         ELSE IF j > m THEN WFill(m, TrendStrengthIndex_NaN)
+                                         ELSE SubSeq(sg.vw, j + 1, m) \o WFill(j, TrendStrengthIndex_NaN)]
+                                 : j \in 1..8, b \in {<<TrendStrengthIndex_NaN, 0>>, <<TrendStrengthIndex_PInf, 1>>, <<TrendStrengthIndex_NInf, -1>>}}
                    ELSE {})
 
 TrendStrengthIndex_Step1(cfg, s, c, v, doc) ==
@@ -61,9 +81,9 @@ TrendStrengthIndex_Step1(cfg, s, c, v, doc) ==
         w    == TrendStrengthIndex_RevNext(s.lo, v[1], -1)
         rout == w.out - h.out
         pw   == WPush(s.pw, Src(c, cfg.source))
-        vw   == WPush(s.vw, v[1])
+        vw   == IF doc THEN WPush(s.vw, v[1]) ELSE <<>>
         pr   == Ago(pw, cfg.reverse_offset)
-        pv   == Ago(vw, cfg.reverse_offset)
+        pv   == vw[1]
         nz   == FxNeg(cfg.zone)
         ups  == IF ~doc THEN GeSet(pr, cfg.zone)
                 ELSE IF TrendStrengthIndex_IsNaN(pv) THEN {FALSE} ELSE {d >= 0 : d \in TrendStrengthIndex_Sgn(pv, cfg.zone)}
@@ -78,9 +98,6 @@ TrendStrengthIndex_Step1(cfg, s, c, v, doc) ==
                        ELSE <<{TrendStrengthIndex_Sub(under, above)}, {Act(upper - lower)}>>]
          : du \in TrendStrengthIndex_Sgn(v[1], cfg.zone), da \in TrendStrengthIndex_Sgn(v[1], nz), up \in ups, dn \in dns}
 
-TrendStrengthIndex_SigDoc(cfg, sg, c, v) ==
-    UNION {TrendStrengthIndex_Step1(cfg, s, c, v, TRUE) : s \in TrendStrengthIndex_Pre(cfg, sg)}
-TrendStrengthIndex_SigAsCoded(cfg, sg, c, v) ==
-    UNION {TrendStrengthIndex_Step1(cfg, s, c, v, FALSE) : s \in TrendStrengthIndex_Pre(cfg, sg)}
-TrendStrengthIndex_Sig(cfg, sg, c, v) == TrendStrengthIndex_SigAsCoded(cfg, sg, c, v)
+TrendStrengthIndex_Sig(cfg, sg, c, v) ==
+    UNION {TrendStrengthIndex_Step1(cfg, s, c, v, TrendStrengthIndex_Doc) : s \in TrendStrengthIndex_Pre(cfg, sg)}
 =============================================================================
